@@ -170,6 +170,10 @@ pub fn minimise(scn: &Scenario, prop: Prop, sig: &str, budget: usize) -> (Scenar
         for i in 0..cur.items.len() {
             let nf = cur.items[i].f.len();
             for fi in 0..nf {
+                // only fields whose value carries no sender-side expectation may be altered
+                if !worlds::shrinkable(&cur.world, &cur.items[i].kind, &cur.items[i].f[fi].0) {
+                    continue;
+                }
                 let cands: Vec<Val> = match &cur.items[i].f[fi].1 {
                     Val::Bytes(b) if !b.is_empty() => {
                         let mut c = vec![Val::Bytes(Vec::new()), Val::Bytes(b[..b.len() / 2].to_vec()), Val::Bytes(b[..b.len() - 1].to_vec())];
@@ -188,7 +192,7 @@ pub fn minimise(scn: &Scenario, prop: Prop, sig: &str, budget: usize) -> (Scenar
                         }
                         c
                     }
-                    Val::Int(v) if *v > 0 && matches!(cur.items[i].f[fi].0.as_str(), "rep" | "n" | "k" | "at" | "dt") => {
+                    Val::Int(v) if *v > 0 => {
                         vec![Val::Int(0), Val::Int(v / 2), Val::Int(v - 1)]
                     }
                     _ => Vec::new(),
